@@ -468,7 +468,38 @@ def _forms(repo, col):
             for a_, b_ in (sides, sides[::-1]):
                 if own(a_) is not None and own(a_) == par(b_):
                     ok = True
-        wrong = bool(cmps) and not ok and "parents" not in t
+        if not ok:
+            # the same relation on terms: types[k] vs types[parents[k]] with k the position in the loop over the branches -- the parent may
+            # come from `parents[k]` or as the lock-step element of `zip(all_branches, parents)`
+            from sa.terms import align_positions as _ap
+            exg = idx.expander(repo, rg)
+            tt = _ap(exg.term(g.test))
+            TY, PA = "types", "parents"
+            def own_ix(x):
+                return x.args[1] if (x.op == "sub" and x.args[0].op == "param" and x.args[0].name == TY and x.args[1].op == "pos") else None
+            def par_of(x, k):
+                if not (x.op == "sub" and x.args[0].op == "param" and x.args[0].name == TY):
+                    return False
+                b = x.args[1]
+                if b.op == "sub" and b.args[0].op == "param" and b.args[0].name == PA and b.args[1].key() == k.key():
+                    return True
+                if b.op == "elem" and b.args and b.args[0].op == "param" and b.args[0].name == PA and k.op == "pos":
+                    # the lock-step element of `parents` in a loop whose position is k: zip(all_branches, parents) / enumerate(parents)
+                    src = k.args[0]
+                    return (src.op == "call" and src.name == "zip" and any(a_.op == "param" and a_.name == PA for a_ in src.args)) or \
+                        (src.op == "param" and src.name == PA)
+                if b.op == "item" and isinstance(b.name, int) and b.args and b.args[0].op == "elem" and b.args[0].args[0].op == "call" and b.args[0].args[0].name == "zip":
+                    z = b.args[0].args[0]
+                    return b.name < len(z.args) and z.args[b.name].op == "param" and z.args[b.name].name == PA and \
+                        (k.args[0].key() == z.key() or any(k.args[0].key() == a_.key() for a_ in z.args))
+                return False
+            for c_ in tt.walk():
+                if c_.op == "cmp" and c_.name == "!=" and len(c_.args) == 2:
+                    for a_, b_ in (c_.args, c_.args[::-1]):
+                        k = own_ix(a_)
+                        if k is not None and par_of(b_, k):
+                            ok = True
+        wrong = bool(cmps) and not ok and "parent" not in t
         col.add(R, rg, "first radius of a branch is replaced iff its type differs from its PARENT's type",
                 "DISCHARGED" if ok else ("VIOLATED" if wrong else "UNDECIDED"),
                 "types[i] != types[parents[i]]" if ok else
